@@ -86,7 +86,7 @@ def random_gather_trace(utils, rng, n, bound, mode, pfail):
         p = impl.project()
         for t in range(1, n + 1):
             if p["tpc"][t] == "run":
-                ops.append(("Fail", t) if rng.random() < pfail else ("Complete", t))
+                ops.append((("FailCancelled", t) if rng.random() < 0.3 else ("Fail", t)) if rng.random() < pfail else ("Complete", t))
         if impl.loop.pending_ready():
             ops += [("Step", 0)] * max(2, len(ops))
         if not ops:
@@ -96,6 +96,8 @@ def random_gather_trace(utils, rng, n, bound, mode, pfail):
             impl.complete(t)
         elif a == "Fail":
             impl.fail(t)
+        elif a == "FailCancelled":
+            impl.fail_cancelled(t)
         else:
             impl.step()
         log(a, t)
@@ -117,7 +119,7 @@ def random_online_trace(utils, rng, n, bound, script, pfail):
         p = impl.project()
         for t in range(1, n + 1):
             if p["tpc"][t] == "run":
-                ops.append(("Fail", t) if rng.random() < pfail else ("Complete", t))
+                ops.append((("FailCancelled", t) if rng.random() < 0.3 else ("Fail", t)) if rng.random() < pfail else ("Complete", t))
         if impl.loop.pending_ready():
             ops += [("Step", 0)] * max(2, len(ops))
         if not ops:
@@ -127,6 +129,8 @@ def random_online_trace(utils, rng, n, bound, script, pfail):
             impl.complete(t)
         elif a == "Fail":
             impl.fail(t)
+        elif a == "FailCancelled":
+            impl.fail_cancelled(t)
         else:
             impl.step()
         log(a, t)
@@ -155,7 +159,7 @@ def run(ctx):
     wd = tlc.prepare_dir(ctx.build / "tlc", ["gather"])
     ctx.assume("asyncio runs ready callbacks in FIFO order and code between two awaits is atomic (modelled as rq and Step)",
                "the caller of the helpers holds one permit of the semaphore (documented use); bound = the semaphore's initial value",
-               "every task body awaits one future resolved by the environment and ends in one step when cancelled",
+               "every task body awaits one future which the environment resolves, fails or cancels (the body then raises CancelledError on its own) and ends in one step when cancelled",
                "neither the caller nor (OnlineBoundedGather2) single background tasks are cancelled from outside",
                "at least one partial function is passed")
 
@@ -167,7 +171,7 @@ def run(ctx):
     (wd / "GF.cfg").write_text(tlc.mk_cfg(constants=cs, invariants=G_INVS))
     res = tlc.run(wd, "Gather", "GF.cfg", workers=min(4, ctx.workers), coverage=True, dump="gf")
     ctx.add_tlc(res, f"exhaustive Gather Fixed=TRUE N={n} bounds={bounds} modes={ALL_MODES}")
-    ctx.require_covered(res, ["Start", "Complete", "Fail", "Step"], "Gather")
+    ctx.require_covered(res, ["Start", "Complete", "Fail", "FailCancelled", "Step"], "Gather")
     for v in res.violations:
         ctx.violation(f"spec:{v.name}", {"config": cs, "trace": _detail(v)})
     if res.violations:
@@ -182,6 +186,8 @@ def run(ctx):
         "semaphore_queue_used": any(any(e["st"] == "p" for e in s["sq"]) for s in nodes),
         "two_failures": any(len(s["fails"]) >= 2 for s in nodes),
         "return_exceptions_with_failure": any(s["hres"] == "returned" and s["mode"] == "return" and any(not e["ok"] for e in s["hval"]) for s in nodes),
+        "body_raised_CancelledError_returned_in_place": any(s["hres"] == "returned" and s["mode"] == "return" and any(not e["ok"] and e["id"] == 0 for e in s["hval"]) for s in nodes),
+        "body_raised_CancelledError_raised_by_raise_variant": any(s["hres"] == "raised" and s["mode"] != "return" and s["hexc"] == 0 for s in nodes),
         "cancelled_while_granted": any(any(m and x == "grant" for m, x in zip(s["must"], s["tpc"])) for s in nodes),
     }
     if not all(reach.values()):
@@ -217,6 +223,7 @@ def run(ctx):
         "online_raised_body_exception": any(s["hres"] == "raised" and s["hexc"] == n + 1 for s in onodes),
         "online_driver_queued_for_semaphore": any(s["dpc"] == "acq" for s in onodes),
         "online_second_exception_discarded": any(any(x == "failed" and s["exc"] not in (0, i + 1) for i, x in enumerate(s["tpc"])) for s in onodes),
+        "online_body_raised_CancelledError_pool_continues": any(s["hres"] == "returned" and "cancel" in s["outcome"] for s in onodes),
         "online_call_after_shutdown": any(s["hres"] == "raised" and s["script"] == "waitcall" and s["tpc"][n - 1] == "idle" for s in onodes),
     }
     if not all(oreach.values()):
